@@ -146,21 +146,24 @@ def parseCAs : Blob → Option (List String)
   | .cas ids => if ids.isEmpty then none else some ids
   | _ => none
 
+/-- Config.addCaCertificates: the one CA option fills both pools -/
+def addCaCertificates (o : Opts) (conf : TlsCfg) : Res TlsCfg :=
+  match readSrc o.ca .cafile with
+  | .err e => .err e
+  | .panic => .panic
+  | .ok b =>
+    if b = .nil then .ok conf
+    else
+      match parseCAs b with
+      | none => .err .caparse
+      | some pool => .ok { conf with clientCAs := some pool, rootCAs := some pool }
+
 /-- Config.GetTlsConfig (= GetX509KeyPair, then addCaCertificates) -/
 def configGetTlsConfig (o : Opts) : Res TlsCfg :=
   match getX509KeyPair o with
   | .err e => .err e
   | .panic => .panic
-  | .ok crt =>
-    let conf : TlsCfg := { certs := match crt with | some id => [id] | none => [] }
-    match readSrc o.ca .cafile with
-    | .err e => .err e
-    | .panic => .panic
-    | .ok .nil => .ok conf
-    | .ok b =>
-      match parseCAs b with
-      | none => .err .caparse
-      | some pool => .ok { conf with clientCAs := some pool, rootCAs := some pool }
+  | .ok crt => addCaCertificates o { certs := crt.toList }
 
 /-- ClientConfig.GetTlsConfig; `o.flag` is the `insecure` option -/
 def clientGetTlsConfig (o : Opts) : Res TlsCfg :=
@@ -287,10 +290,25 @@ def udpStart (keyLen : Nat) (pw : Option (List Nat)) : UdpStart :=
   | some p => if p.isEmpty then .plain else if aesKeyOk keyLen then .encrypted else .errAesKey
 
 /-- the key both ends feed to the cipher, as a function of the argument list of their pbkdf2.Key
-    call; `kdf`/`sha` stand for pbkdf2-HMAC-SHA256 and SHA-256 (uninterpreted). -/
-def udpKey (args : List String) (iter keyLen : Nat)
-    (kdf : List Nat → List Nat → Nat → Nat → List Nat) (sha : List Nat → List Nat) (pw : List Nat) : Option (List Nat) :=
-  if args = ["pass", "salt", toString iter, toString keyLen, "sha256.New"] then some (kdf pw (sha pw) iter keyLen) else none
+    call (SA.Gen.pbkdf2Args…); `kdf`/`sha` stand for pbkdf2 over HMAC-SHA256 and for SHA-256
+    (uninterpreted); `none` = an argument list of another shape than the one modelled. -/
+def udpKey (args : List String) (kdf : List Nat → List Nat → String → String → List Nat)
+    (sha : List Nat → List Nat) (pw : List Nat) : Option (List Nat) :=
+  match args with
+  | ["pass", "salt", iter, keyLen, "sha256.New"] => some (kdf pw (sha pw) iter keyLen)
+  | _ => none
+
+/-- does a packet server started with `pwS` process the packets of a client started with `pwC`?
+    kcp drops every packet whose checksum fails after decryption, so an encrypted endpoint only
+    talks to a peer using the same cipher key; `keyOf` is the key derivation of both ends. -/
+def udpAdmits (keyLenS keyLenC : Nat) (keyOf : List Nat → Option (List Nat)) (pwS pwC : Option (List Nat)) : Bool :=
+  match udpStart keyLenS pwS, udpStart keyLenC pwC with
+  | .plain, .plain => true
+  | .encrypted, .encrypted =>
+    (match pwS, pwC with
+     | some a, some b => (keyOf a).isSome && keyOf a == keyOf b
+     | _, _ => false)
+  | _, _ => false
 
 /-! ## sessions (crypto/tls contract as a parameter) -/
 
